@@ -62,6 +62,20 @@ theorem pendingOp_mem (cs : List Call) (id : Nat) (op : Op) (h : pendingOp cs id
       · simp [ih h]
     | done id' q r => simp only [pendingOp] at h; simp [ih h]
 
+theorem failedOf_preOp (s : St) (op : Op) : failedOf (preOp s op) = failedOf s := by
+  funext k; simp [failedOf, preOp_key]
+
+theorem noDead_preOp (s : St) (op : Op) : NoDead (preOp s op) op := by
+  cases op with
+  | restartRoutine k cs => exact dropDead_ctx s
+  | restartAll cs =>
+    show (preOp s (.restartAll cs)).ctx ≠ some 0 ∨ keyList (preOp s (.restartAll cs)) = []
+    simp only [preOp]
+    split
+    · rename_i h; right; simpa using h
+    · left; exact dropDead_ctx s
+  | _ => trivial
+
 theorem step_refines (s s' : St) (e : Ev) (hI : RInv s) (h : step s e = some s') :
     abs s' = specEv (abs s) s e ∧
     (∀ id op, e = .exec id → pendingOp s.calls id = some op →
@@ -84,7 +98,10 @@ theorem step_refines (s s' : St) (e : Ev) (hI : RInv s) (h : step s e = some s')
     split at h
     · rename_i op hc
       simp at h; subst h
-      have := execOp_refines s op hI.refs
+      have hri : RefInv (preOp s op) := by
+        intro x hx; rw [(preOp_fields s op).2.1] at hx; exact hI.refs x hx
+      have := execOp_refines (preOp s op) op hri (noDead_preOp s op)
+      rw [abs_preOp, failedOf_preOp] at this
       refine ⟨?_, ?_⟩
       · rw [abs_call, this.1]; simp [specEv, hc]
       · intro id' op' he hc'
@@ -93,7 +110,7 @@ theorem step_refines (s s' : St) (e : Ev) (hI : RInv s) (h : step s e = some s')
         rw [hc] at hc'
         simp only [Option.some.injEq] at hc'
         subst hc'
-        refine ⟨(execOp s op).2.1, (execOp s op).2.2, ?_, by rw [abs_call]; exact this.2⟩
+        refine ⟨(execOp (preOp s op) op).2.1, (execOp (preOp s op) op).2.2, ?_, by rw [abs_call]; exact this.2⟩
         simp only [List.mem_map]
         exact ⟨.invoked id op, pendingOp_mem s.calls id op hc, by simp⟩
     · simp at h
@@ -204,6 +221,14 @@ theorem step_refines (s s' : St) (e : Ev) (hI : RInv s) (h : step s e = some s')
     simp only [step] at h
     split at h
     · simp at h; subst h; exact ⟨rfl, by simp⟩
+    · simp at h
+  | cancelroot =>
+    simp only [step] at h
+    split at h
+    · simp at h; subst h
+      refine ⟨?_, by simp⟩
+      rw [abs_sameBut (sameBut_cancelAll _)]
+      rfl
     · simp at h
 
 end UtilModel.Keyed
